@@ -7,7 +7,7 @@
    may precede the destination: a function of program kind, protocol version and port number alone),
    [destination user host] = user@host or host, [argv_head cmd head]: head is [cmd] or [/bin/sh; -c; cmd or cmd "$@"; --]. *)
 From GixV.Base Require Import Bytes BytesFacts Outcome.
-From GixV.C34 Require Import Model Spec Proofs ProofsArgs.
+From GixV.C34 Require Import Model Spec SpecSh Proofs ProofsArgs ProofsSh.
 
 (* ---- quoting -------------------------------------------------------------------------------------------------- *)
 
@@ -70,6 +70,25 @@ Theorem destination_is_first_operand : forall k version port dest tail,
   starts_with_dash dest = false ->
   scan_options ssh_takes_arg (option_words k version port ++ dest :: tail) = (option_words k version port, dest :: tail).
 Proof. exact L_destination_is_first_operand. Qed.
+
+(* ---- the /bin/sh wrapper of gix-command --------------------------------------------------------------------------- *)
+
+(* `sh -c 'w1 … wn "$@"' NAME args…` runs exactly w1 … wn args…, every argument one word with its bytes unchanged,
+   for ALL argument lists (sh_c_words: Spec.sh_words plus the expansion of a stand-alone "$@") *)
+Theorem sh_c_passes_arguments : forall cmd_words args,
+  forallb plain_word cmd_words = true ->
+  sh_c_words args (join_sp (cmd_words ++ [bs """$@"""])) = Some (cmd_words ++ args).
+Proof. exact L_sh_c_passes_arguments. Qed.
+
+(* … so, when the configured ssh command consists of plain words (`ssh -v`), the argv gix-command hands to the OS in
+   shell mode makes the shell start  cmd_words ++ args *)
+Theorem shell_wrapper_is_transparent : forall cmd_words p a args,
+  forallb plain_word cmd_words = true -> cmd_words <> [] ->
+  p_command p = join_sp cmd_words -> p_use_shell p = true -> p_args p = a :: args ->
+  contains (bs "$@") (p_command p) = false ->
+  exists script, to_argv p = [bs "/bin/sh"; bs "-c"; script; bs "--"] ++ a :: args /\
+                 sh_c_words (a :: args) script = Some (cmd_words ++ a :: args).
+Proof. exact L_shell_wrapper_is_transparent. Qed.
 
 (* ---- the path guard ------------------------------------------------------------------------------------------------ *)
 
@@ -190,6 +209,11 @@ Example rejection_examples :
   path_is_ambiguous (bs " -x") = true /\ path_is_ambiguous (bs "/-x") = false /\
   accepts Ssh example_url = true.
 Proof. repeat split. Qed.
+
+Example shell_wrapper_example :
+  sh_c_words [bs "-p22"; bs "git@-oProxyCommand=x"; bs "git-upload-pack"; bs "'~/it'\''s'"] (bs "ssh -v ""$@""")
+  = Some [bs "ssh"; bs "-v"; bs "-p22"; bs "git@-oProxyCommand=x"; bs "git-upload-pack"; bs "'~/it'\''s'"].
+Proof. reflexivity. Qed.
 
 Example probe_example :
   exists t, connect_ssh (mkUrl true None (Some (bs "host")) None (bs "/p")) 2 (mkOpts (Some (bs "my ssh")) false None) false
